@@ -58,6 +58,17 @@ pub struct BitW {
 }
 impl BitW {
     pub fn put(&mut self, n: u32, v: u64) {
+        if n == 0 {
+            return;
+        }
+        // fast path: byte-aligned whole bytes
+        if self.nbits % 8 == 0 && n % 8 == 0 {
+            for i in (0..n / 8).rev() {
+                self.bytes.push((v >> (8 * i)) as u8);
+            }
+            self.nbits += n as u64;
+            return;
+        }
         for i in (0..n).rev() {
             let bit = ((v >> i) & 1) as u8;
             if self.nbits % 8 == 0 {
@@ -77,10 +88,18 @@ impl BitW {
     }
     /// `zeros` zero bits followed by a one
     pub fn unary(&mut self, zeros: u64) {
-        let mut z = zeros;
-        while z >= 32 {
-            self.put(32, 0);
-            z -= 32;
+        // generator safety net: never emit more than 2^24 bits for one code word
+        let mut z = zeros.min(1 << 24);
+        // align, then whole zero bytes at once
+        while z > 0 && self.nbits % 8 != 0 {
+            self.put(1, 0);
+            z -= 1;
+        }
+        if z >= 8 {
+            let nb = (z / 8) as usize;
+            self.bytes.resize(self.bytes.len() + nb, 0);
+            self.nbits += nb as u64 * 8;
+            z %= 8;
         }
         self.put(z as u32, 0);
         self.put(1, 1);
